@@ -253,6 +253,25 @@ def run(spec, ctx):
                 for ue in (True, False):
                     check_sequence(ctx, toks, ue)
                     n += 1
+        # refused texts (index out of range, bad escape, no leading slash, ...) sprinkled among long runs of DISTINCT
+        # valid pointers: whatever a refusal leaves behind must not surface hundreds of parses later
+        refused = ["/items/9007199254740992", "/-9007199254740992/x", "/a\\", "no-slash", "/\\ud800x", "/" + "9" * 40, "/a/\\u12", " /a"]
+        for rnd in range(6):
+            for bad in refused[rnd % 2::2] + [refused[rnd]]:
+                for fn in (lambda: JSONPointer(bad), lambda: JSONPointer("/ok") / bad, lambda: JSONPointer.from_parts(["a", 2 ** 60]).resolve({"a": []}), lambda: jsonpath.JSONPatch().add(bad, 1)):
+                    try:
+                        fn()
+                    except Exception:  # noqa: BLE001
+                        pass
+            for k in range(320):
+                toks = ("h%d-%d" % (rnd, k), r.choice(ALPHABET), "~/%d" % k)
+                check_sequence(ctx, toks, True)
+                n += 1
+                text = rp.encode(toks)
+                j = impl.call(lambda: JSONPointer("/zz") / text)
+                if not j.ok or str(j.value) != text:
+                    ctx.violation("slash-leading-part-does-not-replace:after-refused-texts", {"tokens": list(toks), "unicode_escape": True}, {"text": text, "outcome": j.desc() if not j.ok else str(j.value)})
+                    return
         ctx.bulk(n)
         ctx.count("history_sequences", n)
         return
